@@ -120,7 +120,7 @@ def mkcheck(op, orders, has_x=False, out_bytes=0, delta=0, two_grids=False, gen=
             args = []
             mem = None
             if out_bytes:
-                mem = W.out('mem', out_bytes); args.append(bv(mem.base))
+                mem = W.out('mem', max(out_bytes, 256)); args.append(bv(mem.base))
             args += [bv(s['obj'].base) for s in splines]
             if has_x:
                 x = W.var('x'); W.assume(z3.Not(z3.fpIsNaN(F(x)))); args.append(x)
